@@ -13,7 +13,9 @@ ID = 'C03'
 LEAN_MODULES = ['Proofs.C03']
 REQUIRED = ['C03.sift_col_eq_extract', 'C03.sift_cap_prefix', 'C03.sift_cols_le_cap', 'C03.maskSift_col_eq_extract',
             'C03.maskSift_cols_le_cap', 'C03.maskSift_cap_prefix', 'C03.ensemble_cols_le_cap', 'C03.ensembleSift_cols_le_cap',
-            'C03.ceemd_cols_le_cap', 'C03.secondLayer_shape', 'C03.secondLayer_block', 'C03.secondLayer_over_sift']
+            'C03.ceemd_cols_le_cap', 'C03.secondLayer_shape', 'C03.secondLayer_block', 'C03.secondLayer_over_sift',
+            'C03.maskSecondLayer_shape', 'C03.maskSecondLayer_block', 'C03.maskSecondLayer_ok_iff', 'C03.maskSecondLayer_over_maskSift',
+            'C03.maskSift_col_lengths', 'C03.ceemd_col_lengths']
 TRUSTED = ['single-IMF extraction (get_next_imf / get_next_imf_mask) is an oracle table in the SIFT / MASKSIFT correspondence: row k '
            'holds the output of the real public function on the residual computed by the harness; the model replays its own loop and '
            'cap logic and rejects the table (oracle-desync) if a residual drifts by more than 1e-9*max(1,|x|)',
@@ -22,11 +24,15 @@ TRUSTED = ['single-IMF extraction (get_next_imf / get_next_imf_mask) is an oracl
            'FINITENESS is not a theorem (Q has no inf/NaN): decided by np.isfinite on the implementation output only (partial claim)',
            'mask cosines, std, noise draws, the ensemble mean values are library numerics: not modelled here (C07/C08)']
 ASSUMPTIONS = ['mask_sift is called with an integer max_imfs (the code requires it); caps are >= 1',
-               'sift_second_layer is used with sift_func=emd.sift.sift']
+               'sift_second_layer is used with sift_func=emd.sift.sift',
+               'mask_sift_second_layer is called with an array-like mask_freqs (list / tuple / ndarray; a string or float cannot be '
+               'sliced per column) and without ret_mask_freq; with fewer masks than first-layer components it raises IndexError '
+               '(modelled: L2Result.indexError, compared exactly; nothing is documented to be returned there)']
 RULE = ('classic: random signals (9 families) x imf options x caps k = 1..K+2 (K = components of the uncapped run) x input layouts '
         '(n,), (n,1); mask: signals x mask_freqs {zc, float, user list shorter/longer than cap} x amp modes x nphases x caps; '
         'ensemble / complete ensemble: seeded runs x nensembles x noise mode x caps incl. caps above the available components; '
-        'second layer: first-layer caps x sift_args {None, {}, max_imfs below/equal/above the first-layer count}. '
+        'second layer: first-layer caps x sift_args {None, {}, max_imfs below/equal/above the first-layer count}; '
+        'mask second layer: the same x number of masks 1..6 (below/equal/above the first-layer count) x list/tuple/array x mask options. '
         'Non-trivial: a cap that actually truncates (k < K), a ragged ensemble, or a padded second-layer block; distinct by content hash.')
 
 IMPL_TIMEOUT = 40
@@ -697,4 +703,152 @@ class SecondLayer(Stream):
         return not isinstance(out, ImplError) and any(w < out['cap2'] for w in out['widths'])
 
 
-STREAMS = [CapPrefix(), MaskCaps(), EnsembleShape(), CeemdShape(), SecondLayer()]
+class MaskSecondLayer(Stream):
+    """mask_sift_second_layer: one mask sift per first-layer column with mask_freqs[ii:], zero padded to the cap"""
+    name = 'mask_second_layer'
+    parallel = False          # get_next_imf_mask opens its own multiprocessing pool
+
+    FREQS = [0.3, 0.15, 0.07, 0.03, 0.012, 0.005]
+
+    def corpus(self):
+        x = S.fr_list(_tones(128, 4))
+        c = [{'x': x, 'cap1': 3, 'freqs': self.FREQS[:m], 'kind': 'array', 'args': a}
+             for m, a in ((5, None), (5, {}), (5, {'max_imfs': 2}), (5, {'max_imfs': 5}), (3, None), (3, {'max_imfs': 4}),
+                          (2, None), (1, {'max_imfs': 2}))]       # the last two: fewer masks than first-layer columns
+        c.append({'x': x, 'cap1': 3, 'freqs': self.FREQS[:4], 'kind': 'list', 'args': {'mask_amp_mode': 'ratio_sig', 'nphases': 2}})
+        c.append({'x': x, 'cap1': 1, 'freqs': self.FREQS[:1], 'kind': 'tuple', 'args': None})
+        return c
+
+    def generate(self, rng, tier):
+        for i in range(200 if tier == 'thorough' else 30):
+            fam = rng.choice(['noise', 'tones', 'tones', 'walk', 'amfm'])
+            x = S.gen_signal(rng, fam, rng.choice([48, 64, 96]))
+            cap1 = rng.choice([1, 2, 3, 4])
+            m = rng.randint(1, 6)
+            f0 = rng.uniform(0.2, 0.45)
+            freqs = [round(f0 / (2 ** j), 5) for j in range(m)]
+            u = rng.random()
+            args = None if u < 0.2 else {} if u < 0.35 else {'max_imfs': rng.randint(1, 6)}
+            if args is not None and rng.random() < 0.5:
+                args.update(rng.choice([{'mask_amp_mode': 'ratio_sig'}, {'mask_amp': 0.5, 'mask_amp_mode': 'abs'}, {'nphases': 2},
+                                        {'sift_thresh': 1e-6}, {'mask_freqs': 'zc'}]))
+            yield {'x': S.fr_list(x), 'cap1': cap1, 'freqs': freqs, 'kind': rng.choice(['array', 'array', 'list', 'tuple']), 'args': args}
+
+    @staticmethod
+    def _freqs(case):
+        f = case['freqs']
+        return np.array(f) if case['kind'] == 'array' else tuple(f) if case['kind'] == 'tuple' else list(f)
+
+    def impl(self, case):
+        import emd
+        x = np.array(case['x'], dtype=float)
+        with S.time_limit(IMPL_TIMEOUT * 3):
+            ia = np.abs(np.asarray(emd.sift.sift(x, max_imfs=case['cap1']))) + 0.0
+            args = None if case['args'] is None else dict(case['args'])
+            a2 = dict(case['args'] or {})
+            cap2 = a2.get('max_imfs', ia.shape[1])
+            a2['max_imfs'] = cap2
+            freqs = self._freqs(case)
+            inner, widths = [], []
+            for i in range(ia.shape[1]):
+                a2['mask_freqs'] = freqs[i:]
+                if len(freqs[i:]) == 0:
+                    break                           # nothing the public mask_sift could be asked for
+                t = np.asarray(emd.sift.mask_sift(ia[:, i], **a2))
+                inner.append(t)
+                widths.append(t.shape[1])
+            res = {'n1': ia.shape[1], 'cap2': cap2, 'widths': widths, 'nfreqs': len(freqs)}
+            try:
+                r = np.asarray(emd.sift.mask_sift_second_layer(ia, freqs, sift_args=args))
+                res['shape'] = list(r.shape)
+                res['finite'] = _finite(r)
+                ok = r.ndim == 3 and r.shape[1] == ia.shape[1] == len(inner)
+                blocks = []
+                for i in range(ia.shape[1] if ok else 0):
+                    w = inner[i].shape[1]
+                    blocks.append(bool(w <= r.shape[2] and np.array_equal(r[:, i, :w], inner[i]) and not np.any(r[:, i, w:])))
+                res['blocks'] = blocks
+            except Exception as e:  # noqa
+                res['error'] = err_kind(e)
+                res['msg'] = str(e)[:200]
+            res['args_mutated'] = (args != case['args'])
+        return res
+
+    def ops(self, case, out):
+        if isinstance(out, ImplError):
+            return []
+        cap = (case['args'] or {}).get('max_imfs')
+        # columns beyond the masks get width 1 (never reached: the model stops at the first exhausted column)
+        ws = out['widths'] + [1] * (out['n1'] - len(out['widths']))
+        return [proto.op('ML2-SHAPE', {'cap': 'none' if cap is None else str(cap), 'nfreqs': out['nfreqs']}, [ws])]
+
+    def compare(self, case, out, results):
+        if isinstance(out, ImplError):
+            return None
+        r = results[0]
+        if r.status == 'err':
+            # the model raises IndexError exactly when the masks run out before the first-layer columns do
+            if 'error' in out and r.words[:1] == [out['error']] and int(r.args['col']) == out['nfreqs'] == len(out['widths']):
+                return None
+            return 'model: %s; impl %s' % (r.raw[:60], out.get('error', out.get('shape')))
+        if not r.ok:
+            return 'model: ' + r.raw[:100]
+        if 'error' in out:
+            return 'model shape [n, %s, %s]; impl raised %s' % (r.args['d1'], r.args['d2'], out['error'])
+        if out['shape'][1:] != [int(r.args['d1']), int(r.args['d2'])]:
+            return 'model shape [n, %s, %s]; impl %s' % (r.args['d1'], r.args['d2'], out['shape'])
+        filled = [int(v) for v in (r.vecs[0] or [])]
+        if filled != out['widths']:
+            return 'model fills %s columns per block, inner mask sifts have %s' % (filled, out['widths'])
+        return None
+
+    def holds(self, case, out):
+        if isinstance(out, ImplError):
+            return [Failure('does-not-terminate' if out['error'] == 'Timeout' else 'harness-crashed:' + out['error'], out.get('msg', ''))]
+        cap = (case['args'] or {}).get('max_imfs')
+        how = 'sift_args=None' if case['args'] is None else 'uncapped' if cap is None else \
+            'cap-below-first-layer' if cap < out['n1'] else 'cap-above-first-layer' if cap > out['n1'] else 'cap-equals-first-layer'
+        fs = []
+        if out['args_mutated']:
+            fs.append(Failure('sift-args-mutated', 'the caller\'s sift_args dict was modified'))
+        if out['nfreqs'] < out['n1']:
+            # fewer masks than first-layer components: nothing is documented to be returned; the code raises IndexError
+            if 'error' not in out:
+                fs.append(Failure('mask-second-layer-returns-without-masks', 'n1=%d nfreqs=%d shape=%s' % (out['n1'], out['nfreqs'], out['shape'])))
+            return fs
+        if 'error' in out:
+            return fs + [Failure('mask-second-layer-raises:%s:%s' % (out['error'], how), out['msg'])]
+        n = len(case['x'])
+        if out['shape'] != [n, out['n1'], out['cap2']]:
+            fs.append(Failure('wrong-shape:' + how, 'expected [%d, %d, %d], got %s' % (n, out['n1'], out['cap2'], out['shape'])))
+        elif not all(out['blocks']):
+            fs.append(Failure('mask-second-layer-block-differs:' + how,
+                              'blocks equal to mask_sift(IA[:, i], mask_freqs[i:]) zero padded: %s' % out['blocks']))
+        for i, w in enumerate(out['widths']):
+            if w > min(out['cap2'], out['nfreqs'] - i):
+                fs.append(Failure('more-components-than-cap', 'column %d: %d components, max_imfs=%d, %d masks left'
+                                  % (i, w, out['cap2'], out['nfreqs'] - i)))
+                break
+        if not out.get('finite', True):
+            fs.append(Failure('non-finite-output', ''))
+        return fs
+
+    def tags(self, case, out):
+        cap = (case['args'] or {}).get('max_imfs')
+        t = ['args=' + ('None' if case['args'] is None else 'uncapped' if cap is None else 'capped'), 'freqs=' + case['kind']]
+        if not isinstance(out, ImplError):
+            t.append('n1=%d' % out['n1'])
+            t.append('nfreqs%sn1' % ('<' if out['nfreqs'] < out['n1'] else '>' if out['nfreqs'] > out['n1'] else '='))
+            if 'error' in out:
+                t.append('raises:' + out['error'])
+            if any(w < out['cap2'] for w in out['widths']):
+                t.append('padded-block')
+            if any(w == out['nfreqs'] - i < out['cap2'] for i, w in enumerate(out['widths'])):
+                t.append('cap-lowered-to-masks-left')
+        return t
+
+    def nontrivial(self, case, out):
+        return not isinstance(out, ImplError) and 'error' not in out and any(w < out['cap2'] for w in out['widths'])
+
+
+STREAMS = [CapPrefix(), MaskCaps(), EnsembleShape(), CeemdShape(), SecondLayer(), MaskSecondLayer()]
